@@ -4,6 +4,10 @@
 /* the guarded trace points of /repo (-DOISF_LIBHTP_VERIF) call this; bit id is set when point id fired */
 static unsigned verif_trace_bits;
 void htp_verif_trace(int id) { if (id >= 0 && id < 32) verif_trace_bits |= 1u << id; }
+/* every suite prints through drv_out (thread-local; stdout by default) so that drivers can capture per-connection output */
+static __thread FILE *drv_out;
+#define printf(...) fprintf(drv_out ? drv_out : stdout, __VA_ARGS__)
+#define putchar(c) fputc((c), drv_out ? drv_out : stdout)
 static int split_tabs(char *line, char **f, int max) {
     int n = 0;
     f[n++] = line;
